@@ -45,8 +45,19 @@ def leaves_of_obj(o, out):
     if isinstance(o, (univ.SequenceOf, univ.SetOf, univ.Sequence, univ.Set)):
         num = o.tagSet[0].tagId
         out.append(("open", num))
-        for i in range(len(o)):
-            leaves_of_obj(o.getComponentByPosition(i), out)
+        kids = [o.getComponentByPosition(i) for i in range(len(o))]
+        # the other public ways of reading the members in order must agree with the positional one
+        if isinstance(o, (univ.Sequence, univ.Set)):
+            by_values = list(o.values())
+            by_items = [v_ for (_k, v_) in o.items()]
+            by_keys = [o[k_] for k_ in o.keys()]
+        else:
+            by_values = by_items = by_keys = list(o)
+        for alt in (by_values, by_items, by_keys):
+            if len(alt) != len(kids) or any(a_ is not b_ for a_, b_ in zip(alt, kids)):
+                out.append(("order", "values()/items()/keys()/iteration disagree with positions"))
+        for c in kids:
+            leaves_of_obj(c, out)
         out.append(("close", num))
         return out
     num = o.tagSet[0].tagId
@@ -58,7 +69,7 @@ def leaves_of_obj(o, out):
 def _norm(leaves):
     out = []
     for l in leaves:
-        if l[0] in ("open", "close"):
+        if l[0] in ("open", "close", "order"):
             out.append(l)
         else:
             kind = NUM2KIND[l[0]]
